@@ -110,6 +110,9 @@ class SubPackets(collections_abc.MutableMapping, Field):
         super(SubPackets, self).__init__()
         self._hashed_sp = collections.OrderedDict()
         self._unhashed_sp = collections.OrderedDict()
+        # the hashed area exactly as it was received, for as long as no hashed subpacket is added:
+        # a signature must be verified over the octets that were signed, not over a re-encoding of them
+        self._hashed_raw = None
 
     def __bytearray__(self):
         _bytes = bytearray()
@@ -118,6 +121,9 @@ class SubPackets(collections_abc.MutableMapping, Field):
         return _bytes
 
     def __hashbytearray__(self):
+        if self._hashed_raw is not None:
+            return bytearray(self._hashed_raw)
+
         _bytes = bytearray()
         _bytes += self.int_to_bytes(sum(len(sp) for sp in self._hashed_sp.values()), 2)
         for hsp in self._hashed_sp.values():
@@ -153,6 +159,7 @@ class SubPackets(collections_abc.MutableMapping, Field):
         d = self._unhashed_sp
         if key.startswith('h_'):
             d, key = self._hashed_sp, key[2:]
+            self._hashed_raw = None
 
         while (key, i) in d:
             i += 1
@@ -180,6 +187,7 @@ class SubPackets(collections_abc.MutableMapping, Field):
         sp = SubPackets()
         sp._hashed_sp = self._hashed_sp.copy()
         sp._unhashed_sp = self._unhashed_sp.copy()
+        sp._hashed_raw = copy.copy(self._hashed_raw)
 
         return sp
 
@@ -207,9 +215,13 @@ class SubPackets(collections_abc.MutableMapping, Field):
         # for their contents, but we can at least output that correctly
         # so instead of tracking how many bytes we can now output, we track how many bytes have we parsed so far
         plen = len(packet)
+        hashed_raw = bytearray(self.int_to_bytes(hl, 2)) + packet[:hl]
         while plen - len(packet) < hl:
             sp = SignatureSP(packet)
             self['h_' + sp.__class__.__name__] = sp
+
+        if plen - len(packet) == hl:
+            self._hashed_raw = hashed_raw
 
         uhl = self.bytes_to_int(packet[:2])
         del packet[:2]
